@@ -68,7 +68,7 @@ CHECKS = {
         "rule": "engine histories (profiles content/general/lowlevel/long; memory backend, plus the directory backend in quick and Deflate-over-directory / Brotli-over-SQLite in thorough): after every commit -> Some on a replica that is not behind, a fresh Melda::new on the same storage must show identical objects/winners/conflicts/revision sets/document/heads/blocks; "
                 "reopen ops compare with the last clean state. non-trivial = the history committed >=2 revisions of one object in one commit, or its first commit carried an update record." + DISTINCT,
         "assumptions": ASSUME_COMMON,
-        "jobs": [engine("content", "content", "C03", (1600, 60000)), engine("general", "general", "C03", (800, 30000)), engine("lowlevel", "lowlevel", "C03", (240, 12000)), engine("long", "long", "C03", (48, 1600)),
+        "jobs": [engine("content", "content", "C03", (1600, 60000)), engine("general", "general", "C03", (800, 30000)), engine("lowlevel", "lowlevel", "C03", (240, 12000)), engine("wide", "wide", "C03", (160, 8000)), engine("long", "long", "C03", (48, 1600)),
                  engine("content-dir", "content", "C03", (96, 4000), args={"backend": "fs"}),
                  engine("bigpacks-deflate", "bigdoc", "any", (32, 800), args={"backend": "mem+flate"}),
                  engine("bigpacks-brotli-dir", "bigdoc", "any", (16, 400), args={"backend": "fs+brotli"}),
@@ -82,7 +82,7 @@ CHECKS = {
                 "Generators: hostile strings/ids/numbers, objects moving between arrays, flattened keys appearing/disappearing/changing kind, reverts to older documents. One dedicated case exercises known finding F10. "
                 "non-trivial = >=2 exact read-backs from a state with history and >=1 meld." + DISTINCT,
         "assumptions": ASSUME_COMMON + ["'!'-leading identifiers are generated for array elements only; the single-object shape is the dedicated F10 case"],
-        "jobs": [engine("kind", "kind", "C04", (1280, 60000)), engine("general", "general", "C04", (480, 30000)), engine("conflict", "conflict", "C04", (480, 30000)), engine("lowlevel", "lowlevel", "C04", (240, 12000)),
+        "jobs": [engine("kind", "kind", "C04", (1280, 60000)), engine("general", "general", "C04", (480, 30000)), engine("conflict", "conflict", "C04", (480, 30000)), engine("wide", "wide", "C04", (320, 16000)), engine("lowlevel", "lowlevel", "C04", (240, 12000)),
                  mode("f10", "c04f10", (1, 1), shards=1)],
     },
     "C05": {
@@ -92,7 +92,7 @@ CHECKS = {
                 "system: in every observation of every history, winner/conflicting/in_conflict == the rule applied to the library's own revision sets and to the trees parsed from the raw block files. "
                 "non-trivial (unit) = >=2 live leaves, a marker, an index >=10 or a dangling subtree; (system) = >=2 live leaves seen or an index >= 10." + DISTINCT,
         "assumptions": ASSUME_COMMON,
-        "jobs": [mode("trees", "c05unit", (40000, 1200000)), mode("order", "c19unit", (64, 3200)), engine("conflict", "conflict", "C05", (640, 30000)), engine("long", "long", "C05", (64, 3200))],
+        "jobs": [mode("trees", "c05unit", (40000, 1200000)), mode("order", "c19unit", (64, 3200)), engine("conflict", "conflict", "C05", (640, 30000)), engine("long", "long", "C05", (64, 3200)), engine("verylong", "verylong", "C05", (16, 320))],
     },
     "C06": {
         "level": "exploration", "floor": 50,
@@ -143,7 +143,7 @@ CHECKS = {
         "rule": "online monitor on the instrumented adapter after every operation on every replica: each key is <sha256(bytes)>.pack or <i>-<sha256(bytes)>.delta with i = 1 + max parent index parsed from the bytes; a write to an existing key carries identical bytes; a full scan finds every key seen before with the same hash; "
                 "one key has one hash on all replicas (meld's parse-and-reserialise is checked byte for byte). commit(info) draws hostile metadata (nested, 1e300, -0.0, 5e-324, u64::MAX, escapes, control/non-ASCII, 300 keys, keys named like block fields). non-trivial = >=1 meld and >=2 commits." + DISTINCT,
         "assumptions": ASSUME_COMMON,
-        "jobs": [engine("general", "general", "C11", (1280, 40000)), engine("conflict", "conflict", "C11", (480, 24000)), engine("graph", "graph", "C11", (480, 24000))],
+        "jobs": [engine("general", "general", "C11", (1280, 40000)), engine("conflict", "conflict", "C11", (480, 24000)), engine("wide", "wide", "C11", (160, 8000)), engine("graph", "graph", "C11", (480, 24000))],
     },
     "C12": {
         "level": "exploration", "floor": 20,
@@ -164,7 +164,7 @@ CHECKS = {
         "rule": "every replica records (heads -> state) whenever it is clean; reload_until(H) for a recorded H must show that state, heads == H, objects/winners == the reference model restricted to H's ancestors, and Melda::new_until must agree; reload() afterwards returns to the latest state; "
                 "replicas may also stay in the past and commit from there. After every op 5 random (object, revision) pairs are looked up: value and parent must equal the first recorded ones and the value must hash to the digest in the revision id. non-trivial = >=1 travel and (a multi-head target or >=5 commits)." + DISTINCT,
         "assumptions": ASSUME_COMMON,
-        "jobs": [engine("graph", "graph", "C14", (1600, 60000)), engine("general", "general", "C14", (320, 20000)), engine("long", "long", "C14", (48, 1600))],
+        "jobs": [engine("graph", "graph", "C14", (1600, 60000)), engine("general", "general", "C14", (320, 20000)), engine("long", "long", "C14", (48, 1600)), engine("verylong", "verylong", "C14", (0, 160), tier="thorough")],
     },
     "C15": {
         "level": "exploration", "floor": 20,
